@@ -429,3 +429,24 @@ def same_ineq(a, b) -> bool:
     a = a if isinstance(a, tuple) else ineq(a)
     b = b if isinstance(b, tuple) else ineq(b)
     return a is not None and b is not None and a[0] == b[0] and lin_eq(a[1], b[1])
+
+
+def cmp_sides(test):
+    """orientation-independent view of an ordering test: -> (small text, '<' or '<=', big text) or None."""
+    if isinstance(test, str):
+        try:
+            test = ast.parse(test, mode='eval').body
+        except SyntaxError:
+            return None
+    if not (isinstance(test, ast.Compare) and len(test.ops) == 1):
+        return None
+    a, b, op = norm(test.left), norm(test.comparators[0]), test.ops[0]
+    if isinstance(op, ast.Lt):
+        return a, '<', b
+    if isinstance(op, ast.LtE):
+        return a, '<=', b
+    if isinstance(op, ast.Gt):
+        return b, '<', a
+    if isinstance(op, ast.GtE):
+        return b, '<=', a
+    return None
